@@ -193,14 +193,20 @@ func (db *TempPool) SetProposal(pr base.ProposalSignFact) (bool, error) {
 	}
 
 	batch.Put(leveldbProposalKey(pr.Fact().Hash()), prb)
-	batch.Put(
-		leveldbProposalPointKey(
-			pr.ProposalFact().Point(),
-			pr.ProposalFact().Proposer(),
-			pr.ProposalFact().PreviousBlock(),
-		),
-		pr.Fact().Hash().Bytes(),
+
+	pointkey := leveldbProposalPointKey(
+		pr.ProposalFact().Point(),
+		pr.ProposalFact().Proposer(),
+		pr.ProposalFact().PreviousBlock(),
 	)
+
+	// NOTE the first proposal of the point, proposer and previous block is kept
+	switch found, err := pst.Exists(pointkey); {
+	case err != nil:
+		return false, e.Wrap(err)
+	case !found:
+		batch.Put(pointkey, pr.Fact().Hash().Bytes())
+	}
 
 	if err := pst.Batch(batch, nil); err != nil {
 		return false, e.Wrap(err)
